@@ -1221,7 +1221,7 @@ func genBudget() time.Duration {
 	if v, err := strconv.Atoi(os.Getenv("GOVC_GEN_BUDGET")); err == nil && v > 0 {
 		return time.Duration(v) * time.Second
 	}
-	return 150 * time.Second
+	return 300 * time.Second
 }
 
 // gotoBlock transfers control; returns false if the path ends here (loop cut).
